@@ -247,6 +247,23 @@ func (w *World) testedBefore(at ssa.Instruction) []Fact { return w.factsAtK(at, 
 func (w *World) factsAtK(at ssa.Instruction, kill bool) []Fact { return w.factsAtKD(at, kill, 0) }
 
 func (w *World) factsAtKD(at ssa.Instruction, kill bool, cdepth int) []Fact {
+	if r, ok := at.(*ssa.Return); ok {
+		if v, isV := virtReturns[r]; isV && v.succ == nil {
+			return w.factsAtKD(v.real, kill, cdepth)
+		}
+		if v, isV := virtReturns[r]; isV {
+			// virtual return on the edge pred -> merge block: what holds at the end of pred, plus the edge's own condition
+			last := v.pred.Instrs[len(v.pred.Instrs)-1]
+			fs := w.factsAtKD(last, kill, cdepth)
+			if ifi, isIf := last.(*ssa.If); isIf && len(v.pred.Succs) == 2 && v.pred.Succs[0] != v.pred.Succs[1] {
+				var extra []Fact
+				condFacts(ifi.Cond, v.pred.Succs[0] == v.succ, ifi, &extra)
+				fs = append(fs, extra...)
+				fs = append(fs, w.expandSummaries(extra, 0)...)
+			}
+			return fs
+		}
+	}
 	blk := at.Block()
 	fn := blk.Parent()
 	var out []Fact
@@ -845,6 +862,7 @@ func (w *World) holdsOnAllPaths(at ssa.Instruction, pred func([]Fact) bool, dept
 	if depth == 0 {
 		return false
 	}
+	at = locOf(at)
 	b := at.Block()
 	if len(b.Preds) < 2 {
 		if len(b.Preds) == 1 {
